@@ -10,6 +10,7 @@ LEAN_TARGETS = ["ZmqVerif.Props.C17"]
 PEER = {"PULL": "PUSH", "SUB": "PUB", "DEALER": "ROUTER", "ROUTER": "DEALER", "REP": "REQ", "XPUB": "SUB",
         "PUB": "SUB", "PUSH": "PULL", "REQ": "REP"}
 PREFIX = ["attach", "recv-pending", "recv-delivered", "send", "peer-eof", "pending-handshake"]
+ESCALATE_ROUNDS = 0  # extra seeded rounds of the random families when /repo differs from the validated baseline
 RULE = (
     "net engine (real multi-thread runtime): socket type x transport (TCP v4/v6, IPC) x history prefix {bound only, bound + "
     "accepted peers, + traffic, + a client still in its handshake} x {close(), drop}: the endpoints refuse new connections "
